@@ -38,7 +38,9 @@ Init == l = 1 /\ law = "" /\ kind = "" /\ n = 0 /\ a = FxZero /\ b = FxZero /\ t
 TNew == /\ E.ev = "law_new"
         /\ law' = E.law /\ kind' = E.kind /\ n' = E.n /\ a' = Fx(E.a) /\ b' = Fx(E.b)
         /\ t' = 0 /\ M' = FxAbs(Fx(E.init)) /\ lo' = Fx(E.init) /\ hi' = Fx(E.init)
-        /\ ema' = <<FxZero, FxZero, FxZero>>
+        \* (for Vidya programs `ema` carries the exact recurrence, used for the conditioning of its factor)
+        /\ ema' = IF E.kind = "Vidya" /\ E.law \in {"affine", "range"} THEN [vs |-> VidyaInit(E.n, Fx(E.init)), mute |-> FALSE]
+                  ELSE <<FxZero, FxZero, FxZero>>
         /\ ws' = IF "w" \in DOMAIN E THEN [i \in 1..Len(E.w) |-> Fx(E.w[i])] ELSE <<>>
 
 \* allowance for a relation between runs: each run is within A of the truth
@@ -49,13 +51,23 @@ TStep == /\ E.ev = "law_step"
                 m2 == FxMax(M, FxMax(FxAbs(x), IF "z" \in DOMAIN E THEN FxAbs(Fx(E.z)) ELSE FxZero))
                 lo2 == FxMin(lo, x)
                 hi2 == FxMax(hi, x)
-                tol == Allow(4 * n + 16, 8, t + 1, FxAdd(FxMul(FxAdd(FxAbs(a), FxOne), m2), FxAbs(b)))
-            IN  /\ CASE law = "affine" -> Near(Fx(E.y2), FxAdd(FxMul(a, Fx(E.y1)), b), FxMulInt(tol, 2))
-                     [] law = "range"  -> FxGe(Fx(E.y1), FxSub(lo2, tol)) /\ FxLe(Fx(E.y1), FxAdd(hi2, tol))
-                     [] law = "super"  -> Near(Fx(E.y3), FxAdd(Fx(E.y1), Fx(E.y2)), FxMulInt(tol, 3))
-                     [] law = "const"  -> Near(Fx(E.y1), x, Allow(4 * n + 16, 0, 1, FxAbs(x)))
+                tol0 == Allow(4 * n + 16, 8, t + 1, FxAdd(FxMul(FxAdd(FxAbs(a), FxOne), m2), FxAbs(b)))
+                \* Vidya's factor |up - dn| / (up + dn) is a quotient of running sums (quotient rule, as in NumSubjects): its
+                \* conditioning is accumulated along the exact recurrence and added to the allowance; once the sums are within
+                \* rounding of 0 without being 0 the factor -- and with it the rest of this program -- is not determined
+                isV  == kind = "Vidya" /\ law \in {"affine", "range"}
+                aq   == Allow(n, 8, t + 1, FxMulInt(m2, 2 * n))
+                q    == IF isV THEN VidyaStep(n, ema.vs, x, aq) ELSE <<>>
+                mut  == isV /\ (ema.mute \/ (~FxIsZero(q.tot) /\ FxLe(q.tot, FxMulInt(aq, 8))))
+                tol  == IF isV THEN FxAdd(tol0, FxMul(FxAdd(FxAbs(a), FxOne), q.st.eacc)) ELSE tol0
+            IN  /\ \/ mut
+                   \/ CASE law = "affine" -> Near(Fx(E.y2), FxAdd(FxMul(a, Fx(E.y1)), b), FxMulInt(tol, 2))
+                        [] law = "range"  -> FxGe(Fx(E.y1), FxSub(lo2, tol)) /\ FxLe(Fx(E.y1), FxAdd(hi2, tol))
+                        [] law = "super"  -> Near(Fx(E.y3), FxAdd(Fx(E.y1), Fx(E.y2)), FxMulInt(tol, 3))
+                        [] law = "const"  -> Near(Fx(E.y1), x, Allow(4 * n + 16, 0, 1, FxAbs(x)))
+                /\ ema' = IF isV THEN [vs |-> q.st, mute |-> mut] ELSE ema
                 /\ M' = m2 /\ lo' = lo2 /\ hi' = hi2
-         /\ t' = t + 1 /\ UNCHANGED <<law, kind, n, a, b, ema, ws>>
+         /\ t' = t + 1 /\ UNCHANGED <<law, kind, n, a, b, ws>>
 
 \* impulse response: E.j = steps since the unit input; y = the output
 TImpulse ==
